@@ -57,6 +57,12 @@ def rc_uses_cat(st):
     return walk(st)
 
 
+def rc_uses_tag(st, tag):
+    def walk(e):
+        return isinstance(e, list) and ((len(e) > 0 and e[0] == tag) or any(walk(x) for x in e if isinstance(x, list)))
+    return walk(st)
+
+
 def explain_dev(case, backend, i):
     """name of the deviation model that applies at step i for this backend (naming only;
     whether it explains the observed result is decided by comparing with the model's table)"""
@@ -81,11 +87,17 @@ def explain_dev(case, backend, i):
         if op in ("project", "wextend"):
             return "polars_nunique_counts_null"
         if op == "extend":
+            if rc_uses_tag(st, "nan"):
+                return "polars_is_nan_null"
             return "polars_maxmin_ignore_null"
         if op in ("join", "joinc"):
             return "polars_full_join_right_key_lost"
     if backend in ("sqlite", "pg"):
         if op == "extend":
+            if rc_uses_tag(st, "uq"):
+                return "sql_round_half_away"
+            if backend == "pg" and rc_uses_tag(st, "nan"):
+                return "pg_is_nan_null_false"
             return "sql_maxmin_swapped"
         if op in ("join", "joinc") and backend == "sqlite":
             return "sqlite_full_join_emulation"
